@@ -11,7 +11,8 @@ SOURCES = {"hta/common/trace_filter.py": ["IterationFilter", "IterationIndexFilt
                                           "GPUKernelFilter", "CPUOperatorFilter", "CompositeFilter", "MemCopyEventFilter"],
            "hta/utils/utils.py": ["get_symbol_column_names"]}
 N_CASES = {"quick": 200, "thorough": 3000}
-RULE = ("frames = all ranks of a generated, loaded file set concatenated with a rank column (plus the empty frame); per frame 10 random filters: each class with "
+RULE = ("frames = all ranks of a generated, loaded file set concatenated with a rank column, once with unique labels and once with the repeated per-rank "
+        "labels pd.concat leaves (plus the empty frame); per frame 10 random filters: each class with "
         "parameters drawn around the frame's own values (present/absent iterations and ranks, time ranges on event boundaries, name patterns from a pool of "
         "regexes translated to the Coq AST by re._parser, fail-closed) and composites of depth <= 3; each applied twice: encoded frame + symbol table, and decoded "
         "frame (s_name column) without table; compared: list of selected row ids in order, row contents, input frame unchanged (deep comparison); "
@@ -229,6 +230,30 @@ def run_impl(case, d):
         if not frame.equals(before) or list(frame.columns) != list(before.columns):
             problems.append(f"{mode}: the input frame was modified")
         outs[mode] = res
+        # the same frame as pd.concat of the ranks gives it: every rank's labels start again at 0, so labels repeat.  A filter is a selection of
+        # ROWS: positions, order, contents and labels of the selected rows must be the same as on the frame with unique labels
+        if len(frame) and len(set(rank_col)) > 1:
+            dup = frame.copy(deep=True)
+            dup["_pos"] = range(len(dup))
+            labels = []
+            for r in sorted(set(rank_col)):
+                labels += list(range(rank_col.count(r)))
+            dup.index = labels
+            for f, want in zip(filters, res):
+                if isinstance(want, str):
+                    continue
+                try:
+                    o = mk_filter(f, st)(dup, tab) if tab is not None else mk_filter(f, st)(dup)
+                    pos = [int(x) for x in o["_pos"]] if (len(o) or "_pos" in o.columns) else []      # an empty selection may come back without columns
+                    if pos != want:
+                        problems.append(f"{mode}: filter {f} on the frame with repeated labels (ranks concatenated) selects row positions {pos[:12]}, "
+                                        f"on the same frame with unique labels {want[:12]}")
+                    elif [int(x) for x in o.index] != [labels[k] for k in pos]:
+                        problems.append(f"{mode}: filter {f} on the frame with repeated labels: labels of the selected rows changed")
+                    elif pos and not o.reset_index(drop=True).equals(dup.iloc[pos].reset_index(drop=True)):
+                        problems.append(f"{mode}: filter {f} on the frame with repeated labels: contents of the selected rows changed")
+                except Exception as e:
+                    problems.append(f"{mode}: filter {f} raised {type(e).__name__}: {str(e)[:120]} on the frame with repeated labels")
     return {"rows": rows, "ranks": rank_col, "filters": filters, "symtab": list(sym), "out": outs, "problems": problems}
 
 
